@@ -38,6 +38,10 @@ func main() {
 		err = c01Child(*replay)
 	case "c14":
 		err = c14Main(*seed, *n, *out, *repo)
+	case "c19child":
+		err = c19Child(*replay, *out, *n)
+	case "c19":
+		err = c19Main(*seed, *n, *out, *repo)
 	case "c17":
 		err = c17Main(*seed, *n, *out, *repo)
 	default:
